@@ -7,9 +7,9 @@
    applied tree.
 
    The faithful model (Model/Transform14.v, tied to breezy/transform.py and breezy/bzr/transform.py by
-   the correspondence run) does NOT satisfy the full statement; each failing clause has a
-   machine-checked witness below (all reproduced on the real code, see notes/C14.md), next to the
-   strongest statements that were proved.  Path rendering and the rename sequence of apply are tied
+   the correspondence run; code after the repair round 2ecf5bb 33f6199 4df7934) does NOT satisfy the full
+   statement; each clause that still fails has a machine-checked witness below (reproduced on the real
+   code, registered as known findings, see notes/C14.md), next to the strongest statements that hold.  Path rendering and the rename sequence of apply are tied
    by the correspondence run only (the latter is C13's subject). *)
 From Coq Require Import List Bool Arith NArith ZArith String.
 From BV Require Import Lib.Bytes Lib.Obs Model.Transform14 Theory.Transform14.
@@ -17,36 +17,24 @@ Import ListNotations.
 Open Scope list_scope.
 Open Scope nat_scope.
 
-(* ---- clause 1: preview = applied *)
+(* ---- clause 1: preview = applied   (code after the repair round: 2ecf5bb, 33f6199) *)
 
-(* REFUTED as stated: a conflict-free transform (swap two files) that applies without error, yet the
-   preview listing (paths, kinds, content, exec, file ids) differs from the tree after apply:
-   InventoryPreviewTree.get_file / PreviewTree.is_executable look the NEW path up in the OLD tree. *)
-Theorem C14_preview_eq_applied_refuted :
-  exists base t, raw_conflicts base t = Ok [] /\ apply_status base t = None
-                 /\ preview_listing base t <> applied_listing base t.
-Proof.
-  exists w_base, (w_state w_swap). split; [vm_compute; reflexivity|]. split; [vm_compute; reflexivity|].
-  vm_compute. discriminate.
-Qed.
-Print Assumptions C14_preview_eq_applied_refuted.
+(* Contents and executable bit, UNGUARDED: every trans id the preview shows as a file is shown with exactly
+   the contents and the executable bit of the node apply leaves for it -- renamed, swapped, replaced, new,
+   versioned or not.  (Before 2ecf5bb this was false: see C14_old_preview_content_exec_refuted.) *)
+Theorem C14_preview_content_exec_eq_applied :
+  forall base t x,
+    final_kind base t x = Some KFile ->
+    exists n, tid_node base t x = Some n
+              /\ preview_content base t x = map Z.of_N (node_content base t n)
+              /\ preview_exec base t x = node_exec base t n.
+Proof. exact content_exec_agree. Qed.
+Print Assumptions C14_preview_content_exec_eq_applied.
 
-(* REFUTED: a transform without raw conflicts whose apply fails after the tree was changed
-   (delete_contents + create_directory of a directory that keeps a child: rmdir of the non-empty
-   pending-deletion directory fails after the inventory was written; the child is gone) *)
-Theorem C14_conflict_free_applies_refuted :
-  exists base t, raw_conflicts base t = Ok [] /\ apply_status base t = Some "OSError"%string
-                 /\ applied_listing base t <> applied_listing base (init_tt base).
-Proof.
-  exists w_base, (w_state w_replace). split; [vm_compute; reflexivity|]. split; [vm_compute; reflexivity|].
-  vm_compute. discriminate.
-Qed.
-Print Assumptions C14_conflict_free_applies_refuted.
-
-(* GUARDED, node level (structure: parent, name, kind): without "overwrite" conflicts and without the
-   replaced-directory situation ([late_failure] is the executable guard), every trans id the preview
-   shows with contents is, after apply, a node with that kind, sitting in the node of its final parent
-   under its final name.  Holds for every base tree and every transform state. *)
+(* Structure (parent, name, kind), GUARDED: without "overwrite" conflicts and without the
+   replaced-directory situation ([late_failure] is the executable guard, still needed: next theorem), every
+   trans id the preview shows with contents is, after apply, a node with that kind, sitting in the node of
+   its final parent under its final name.  Holds for every base tree and every transform state. *)
 Theorem C14_preview_eq_applied_structure_guarded :
   forall base t x k,
     wf_parents base ->
@@ -60,20 +48,63 @@ Theorem C14_preview_eq_applied_structure_guarded :
 Proof. exact nodes_agree. Qed.
 Print Assumptions C14_preview_eq_applied_structure_guarded.
 
-Example C14_structure_guard_satisfiable :
+(* both together: the strongest preview = applied statement that holds, at node level *)
+Theorem C14_preview_eq_applied_guarded :
+  forall base t x,
+    wf_parents base ->
+    overwrite_conflicts base t = [] ->
+    late_failure base t = false ->
+    x <> 0 ->
+    final_kind base t x = Some KFile ->
+    exists n, tid_node base t x = Some n
+              /\ node_kind base t n = Some KFile
+              /\ container base t n = preview_container base t x
+              /\ preview_content base t x = map Z.of_N (node_content base t n)
+              /\ preview_exec base t x = node_exec base t n.
+Proof.
+  intros base t x WF OW LF X0 FK.
+  destruct (nodes_agree base t x KFile WF OW LF X0 FK) as [n [Hn [Hk Hc]]].
+  destruct (content_exec_agree base t x FK) as [n' [Hn' [Hct Hex]]].
+  rewrite Hn in Hn'. injection Hn' as <-.
+  exists n. repeat split; assumption.
+Qed.
+Print Assumptions C14_preview_eq_applied_guarded.
+
+Example C14_guard_satisfiable :
   overwrite_conflicts w_base (w_state w_swap) = [] /\ late_failure w_base (w_state w_swap) = false
   /\ final_kind w_base (w_state w_swap) 1 = Some KFile.
 Proof. vm_compute. repeat split. Qed.
+(* the former counterexample (swap two files) at listing level: preview listing = tree after apply *)
+Example C14_swap_listing_agrees :
+  raw_conflicts w_base (w_state w_swap) = Ok [] /\ apply_status w_base (w_state w_swap) = None
+  /\ preview_listing w_base (w_state w_swap) = applied_listing w_base (w_state w_swap).
+Proof. vm_compute. repeat split. Qed.
 
-(* PARTIAL, contents: a new versioned file whose change record says "content changed" is shown with the
-   contents apply installs (the only case in which the preview reads the limbo file). *)
-Theorem C14_preview_content_new_file_partial :
-  forall base t x c f p,
-    aget x (new_contents t) = Some (KFile, c) ->
-    final_file_id base t x = Some f -> content_change base t f = true ->
-    preview_content base t x p = map Z.of_N (node_content base t (true, x)).
-Proof. exact preview_content_new. Qed.
-Print Assumptions C14_preview_content_new_file_partial.
+(* STILL REFUTED (known finding C14-replaced-directory): a transform without raw conflicts whose apply
+   fails after the tree was changed (delete_contents + create_directory of a directory that keeps a child:
+   rmdir of the non-empty pending-deletion directory fails after the inventory was written) *)
+Theorem C14_conflict_free_applies_refuted :
+  exists base t, raw_conflicts base t = Ok [] /\ apply_status base t = Some "OSError"%string
+                 /\ applied_listing base t <> applied_listing base (init_tt base).
+Proof.
+  exists w_base, (w_state w_replace). split; [vm_compute; reflexivity|]. split; [vm_compute; reflexivity|].
+  vm_compute. discriminate.
+Qed.
+Print Assumptions C14_conflict_free_applies_refuted.
+
+(* DOCUMENTATION of the defect repaired by 2ecf5bb -- about preview_content_old / preview_exec_old, NOT
+   about the code: looking the new path up in the old tree shows the swapped files unswapped. *)
+Theorem C14_old_preview_content_exec_refuted :
+  exists base t x p n, final_kind base t x = Some KFile /\ final_path base t x = Some p
+                       /\ tid_node base t x = Some n
+                       /\ preview_content_old base t x p <> map Z.of_N (node_content base t n)
+                       /\ preview_exec_old base t x p <> node_exec base t n.
+Proof.
+  exists w_base, (w_state w_swap), 1, [[98]%N], (false, 1).
+  split; [vm_compute; reflexivity|]. split; [vm_compute; reflexivity|]. split; [vm_compute; reflexivity|].
+  split; vm_compute; discriminate.
+Qed.
+Print Assumptions C14_old_preview_content_exec_refuted.
 
 (* PARTIAL, versioning: every entry _generate_inventory_delta writes is exactly the entry
    _make_inv_entries shows for that trans id (entries of untouched ids: correspondence run only). *)
@@ -113,19 +144,29 @@ Proof. eexists. eexists. split; [vm_compute; reflexivity|]. split; [discriminate
 Example C14_resolve_malformed_nontrivial : resolve_conflicts w_base (w_state w_exec) = Malformed.
 Proof. vm_compute. reflexivity. Qed.
 
-(* REFUTED: "clean or MalformedTransform".  A parent loop between two new directories makes
-   resolve_parent_loop raise KeyError (get_tree_parent of a trans id without tree path); a versioned
-   file in a new unversioned directory makes resolve_unversioned_parent raise ValueError
-   (version_file(file_id=None)). *)
+(* STILL REFUTED (known findings C14-resolve-keyerror, -duplicatekey, -recursionerror): "clean or
+   MalformedTransform".  A parent loop between two new directories makes resolve_parent_loop raise KeyError
+   (get_tree_parent of a trans id without tree path); a child below a file versioned in this transform
+   makes resolve_non_directory_parent raise DuplicateKey; an unversioned new directory inside a parent loop
+   makes the id fabrication of resolve_unversioned_parent (4df7934) recurse in FinalPaths. *)
 Theorem C14_resolve_clean_or_malformed_refuted :
   (exists base t, resolve_conflicts base t = Raised "KeyError")
-  /\ (exists base t, resolve_conflicts base t = Raised "ValueError").
+  /\ (exists base t, resolve_conflicts base t = Raised "DuplicateKey")
+  /\ (exists base t, resolve_conflicts base t = Raised "RecursionError").
 Proof.
-  split.
+  split; [|split].
   - exists w_base, (w_state w_loop). vm_compute. reflexivity.
-  - exists w_base, (w_state w_unv). vm_compute. reflexivity.
+  - exists w_base, (w_state w_dupkey). vm_compute. reflexivity.
+  - exists w_base, (w_state w_unv_loop). vm_compute. reflexivity.
 Qed.
 Print Assumptions C14_resolve_clean_or_malformed_refuted.
+
+(* repaired by 4df7934: a versioned file in a new unversioned directory is resolved (the directory gets a
+   fresh file id) *)
+Example C14_unversioned_new_parent_resolved :
+  exists t' n, resolve_conflicts w_base (w_state w_unv) = Clean t' n
+               /\ final_file_id w_base t' 5 = Some (gen_fid 5).
+Proof. eexists. eexists. split; vm_compute; reflexivity. Qed.
 
 (* PARTIAL: four resolvers remove the conflict they were called for (on every state) *)
 Theorem C14_resolver_versioning_no_contents_decreases_partial :
